@@ -299,6 +299,28 @@ def cmdLinesFrom (ind : List Char) : Nat → List (List Char) → List (Nat × O
 /-- (line number, first command line) of a test -/
 def keyOf (t : Test) : Nat × Option (List Char) := (t.lineNumber, t.command.head?)
 
+/-! ### indented lines that are not below a command -/
+
+/-- after these lines no command is open: the last line that is not a `#` line is blank or not
+indented, or there is no such line (`b` = the answer for the lines seen so far) -/
+def closedAfterGo (ind : List Char) : Bool → List (List Char) → Bool
+  | b, [] => b
+  | b, l :: ls =>
+    if isComment l then closedAfterGo ind b ls
+    else if l.isEmpty then closedAfterGo ind true ls
+    else match stripPrefix ind l with
+      | some _ => closedAfterGo ind false ls
+      | none => closedAfterGo ind true ls
+
+def closedAfter (ind : List Char) (pre : List (List Char)) : Bool := closedAfterGo ind true pre
+
+/-- an indented, non-empty, non-`#` line that does not start a command (`$ `) -/
+def isBodyLine (ind : List Char) (line : List Char) : Bool :=
+  !isComment line && !line.isEmpty &&
+    match stripPrefix ind line with
+    | some body => (stripPrefix ['$', ' '] body).isNone
+    | none => false
+
 /-! ### titles: the property's reading ("nearest preceding title line") -/
 
 /-- title of each test = the nearest preceding title line of the document (`""` if none) -/
